@@ -130,6 +130,10 @@ func (rec *Record) TryCompress() {
 		return
 	}
 	body := rec.Payload.Body
+	if len(body) == 0 {
+		// nothing to compress (a long key with an empty value still exceeds one block)
+		return
+	}
 	try := body
 	if len(body) > TRY_COMPRESS_SIZE {
 		try = try[:TRY_COMPRESS_SIZE]
